@@ -8,12 +8,14 @@ package webrtc
 import (
 	"errors"
 	"io"
+	"net"
 	"sync"
 
 	"github.com/pion/ice/v4"
 	"github.com/pion/interceptor"
 	"github.com/pion/logging"
 	"github.com/pion/sdp/v3"
+	"github.com/pion/srtp/v3"
 )
 
 // every log line is formatted (and thrown away), so that arguments of log
@@ -394,5 +396,85 @@ func (pc *PeerConnection) VerifC30RTXUnwrap(fills [][]byte, ns []int, pt uint8, 
 		default:
 			return out, nil
 		}
+	}
+}
+
+// VerifC30Media is the sending side of a media path set up without ICE/DTLS.
+type VerifC30Media struct {
+	rtp   *srtp.SessionSRTP
+	rtcp  *srtp.SessionSRTCP
+	conns []net.Conn
+}
+
+// VerifC30ConnectMedia installs SRTP/SRTCP sessions (fixed keys, in-memory
+// pipes) into the DTLS transport as startSRTP would after the handshake, and
+// starts the undeclared-media processor as startRTP does. Packets written to
+// the returned peer arrive exactly as packets of a connected remote peer do:
+// decrypted by pion/srtp, then AcceptStream / handleIncomingSSRC / receivers.
+func (pc *PeerConnection) VerifC30ConnectMedia() (*VerifC30Media, error) {
+	a, b := net.Pipe()
+	c, d := net.Pipe()
+	cfg := func() *srtp.Config {
+		return &srtp.Config{
+			Keys: srtp.SessionKeys{
+				LocalMasterKey: make([]byte, 16), LocalMasterSalt: make([]byte, 14),
+				RemoteMasterKey: make([]byte, 16), RemoteMasterSalt: make([]byte, 14),
+			},
+			Profile:       srtp.ProtectionProfileAes128CmHmacSha1_80,
+			LoggerFactory: pc.api.settingEngine.LoggerFactory,
+		}
+	}
+	local, err := srtp.NewSessionSRTP(a, cfg())
+	if err != nil {
+		return nil, err
+	}
+	localC, err := srtp.NewSessionSRTCP(c, cfg())
+	if err != nil {
+		return nil, err
+	}
+	remote, err := srtp.NewSessionSRTP(b, cfg())
+	if err != nil {
+		return nil, err
+	}
+	remoteC, err := srtp.NewSessionSRTCP(d, cfg())
+	if err != nil {
+		return nil, err
+	}
+	pc.dtlsTransport.srtpSession.Store(local)
+	pc.dtlsTransport.srtcpSession.Store(localC)
+	pc.undeclaredMediaProcessor()
+
+	return &VerifC30Media{rtp: remote, rtcp: remoteC, conns: []net.Conn{a, b, c, d}}, nil
+}
+
+// SendRTP encrypts and sends one RTP packet (pion/srtp refuses bytes whose
+// header does not parse; so would the remote peer's own stack).
+func (m *VerifC30Media) SendRTP(raw []byte) error {
+	ws, err := m.rtp.OpenWriteStream()
+	if err != nil {
+		return err
+	}
+	_, err = ws.Write(raw)
+
+	return err
+}
+
+// SendRTCP encrypts and sends one compound RTCP packet.
+func (m *VerifC30Media) SendRTCP(raw []byte) error {
+	ws, err := m.rtcp.OpenWriteStream()
+	if err != nil {
+		return err
+	}
+	_, err = ws.Write(raw)
+
+	return err
+}
+
+// Close closes the sending side.
+func (m *VerifC30Media) Close() {
+	_ = m.rtp.Close()
+	_ = m.rtcp.Close()
+	for _, c := range m.conns {
+		_ = c.Close()
 	}
 }
